@@ -789,4 +789,120 @@ VF_PART(hull_dilated)
   });
 }
 
-int main(int argc, char** argv) { return run_main(argc, argv, [](Ctx&) { silence(); }); }
+// ---- E2: histories of edits on ONE PolyElem / Polygons object (hidden state: caches of derived geometry) ---------------
+// After every history the inclusion test of the edited object must equal the exact reference on its CURRENT vertices.
+#include "vf/bfs.hpp"
+static const std::vector<std::vector<P>>& histRings()
+{
+  static std::vector<std::vector<P>> R = {
+    {{4, 4}, {12, 4}, {12, 12}, {4, 12}},            // small square
+    {{0, 0}, {32, 0}, {32, 24}, {0, 24}},            // big rectangle containing it
+    {{40, 8}, {56, 8}, {48, 28}},                    // triangle elsewhere (disjoint bounding box)
+    {{0, 0}, {16, 0}, {16, 8}, {8, 8}, {8, 16}, {0, 16}},  // L shape
+    {{-16, -16}, {-4, -16}, {-4, -4}, {-16, -4}}};   // square in the negative quadrant
+  return R;
+}
+static void historyPoly(Ctx& C, bool usePolygons, int depth)
+{
+  const auto& R = histRings();
+  const int NR = (int)R.size();
+  // ops: 0..NR-1 setX+setY(ring) ; NR..2NR-1 init(ring) ; 2NR..3NR-1 assign from a fresh element(ring) ;
+  //      3NR addPoint(extra vertex) ; 3NR+1 close ; 3NR+2 copy-construct-and-replace ; 3NR+3 observe (query every point)
+  const int nops = 3 * NR + 4;
+  auto opname = [&](int op) -> std::string {
+    if (op < NR) return "setX+setY(ring" + std::to_string(op) + ")";
+    if (op < 2 * NR) return "init(ring" + std::to_string(op - NR) + ")";
+    if (op < 3 * NR) return "assign(fresh ring" + std::to_string(op - 2 * NR) + ")";
+    if (op == 3 * NR) return "addPoint";
+    if (op == 3 * NR + 1) return "close";
+    if (op == 3 * NR + 2) return "copy-construct-replace";
+    return "observe";
+  };
+  auto exec = [&](const History& h) -> StepResult {
+    StepResult res;
+    std::vector<P> ring = R[0];
+    VectorDouble x, y; toXY(ring, false, x, y);
+    PolyElem* pe = new PolyElem(x, y);
+    Polygons* ps = new Polygons(); ps->addPolyElem(*pe);
+    bool closedDup = false, observed = false;
+    auto observe = [&]() {
+      VectorDouble c(2);
+      for (ll qx = -18; qx <= 58; qx += 4) for (ll qy = -18; qy <= 30; qy += 4) { c[0] = (qx + 1) / 4.; c[1] = (qy + 1) / 4.; (void)(usePolygons ? ps->inside(c, false) : pe->inside(c)); }
+    };
+    for (size_t k = 0; k < h.size(); k++)
+    {
+      int op = h[k];
+      observed = false;
+      if (op < NR)
+      {
+        ring = R[op]; closedDup = false; toXY(ring, false, x, y);
+        if (usePolygons) { ps->setX(0, x); ps->setY(0, y); } else { pe->setX(x); pe->setY(y); }
+      }
+      else if (op < 2 * NR)
+      {
+        ring = R[op - NR]; closedDup = false; toXY(ring, false, x, y);
+        if (usePolygons) { Polygons* q = new Polygons(); q->addPolyElem(PolyElem(x, y)); delete ps; ps = q; } else pe->init(x, y);
+      }
+      else if (op < 3 * NR)
+      {
+        ring = R[op - 2 * NR]; closedDup = false; toXY(ring, false, x, y);
+        if (usePolygons) { Polygons q; q.addPolyElem(PolyElem(x, y)); *ps = q; } else { PolyElem q(x, y); *pe = q; }
+      }
+      else if (op == 3 * NR)
+      {
+        // append a vertex far to the upper right: keeps the menu rings simple only for some of them (checked below)
+        if (closedDup || usePolygons) { res.enabled = false; break; }
+        ring.push_back({60, 30});
+        pe->addPoint(15., 7.5);
+      }
+      else if (op == 3 * NR + 1)
+      {
+        if (usePolygons || closedDup) { res.enabled = false; break; }
+        pe->closePolyElem(); closedDup = true;
+      }
+      else if (op == 3 * NR + 2)
+      {
+        if (usePolygons) { Polygons* q = new Polygons(*ps); delete ps; ps = q; } else { PolyElem* q = new PolyElem(*pe); delete pe; pe = q; }
+      }
+      else { observe(); observed = true; }
+    }
+    if (res.enabled)
+    {
+      Hash hk; for (auto& p : ring) hk.i(p.x).i(p.y);
+      hk.i(closedDup).i(observed);
+      res.key = hk.h;
+      if (isSimple(ring))
+      {
+        VectorDouble c(2);
+        bool bad = false; int nin = 0;
+        for (ll qx = -18; qx <= 62 && !bad; qx += 4)
+          for (ll qy = -18; qy <= 34 && !bad; qy += 4)
+          {
+            P q {qx + 1, qy + 1};
+            int ref = refInside(ring, q);
+            if (ref < 0) continue;
+            nin += ref;
+            c[0] = q.x / 4.; c[1] = q.y / 4.;
+            bool got = usePolygons ? ps->inside(c, false) : pe->inside(c);
+            if (got != (bool)ref)
+            {
+              std::string hs; for (size_t k = 0; k < h.size(); k++) hs += (k ? " ; " : "") + opname(h[k]);
+              C.violation(std::string("history:") + (usePolygons ? "Polygons" : "PolyElem") + ":inside-after:" + opname(h.back()).substr(0, opname(h.back()).find('(')),
+                          "after the history [" + hs + "] the inclusion test answers " + std::to_string(got) + " for (" + fmt(c[0]) + "," + fmt(c[1]) + "), the current ring " + ringStr(ring) + " gives " + std::to_string(ref), hist_str(h));
+              bad = true;
+            }
+          }
+        if (nin > 0 && h.size() >= 2) C.nontrivial(Hash().s(hist_str(h)).i(usePolygons).h);
+        if (h.size() == 3 && h[0] == 3 * NR + 3 && h[1] == 2) C.sample("{\"history\":" + jstr(hist_str(h)) + ",\"object\":" + jstr(usePolygons ? "Polygons" : "PolyElem") + "}");
+      }
+      else C.outcome("ring-not-simple-after-addPoint-not-judged");
+    }
+    delete pe; delete ps;
+    return res;
+  };
+  bfs(C, nops, depth, exec, /*prune=*/false);
+}
+VF_PART(history_polyelem) { historyPoly(C, false, C.thorough() ? 4 : 3); }
+VF_PART(history_polygons) { historyPoly(C, true, C.thorough() ? 4 : 3); }
+
+int main(int argc, char** argv) { return run_main(argc, argv, [](Ctx&) { silence(); }, [](Ctx& C) { write_states(C); }); }
